@@ -164,7 +164,11 @@ pub(crate) fn on_remove_worker(
         .on_worker_lost(worker_id, &running_tasks, reason);
 
     for task_id in running_tasks {
-        let task = core.get_task_mut(task_id);
+        // The task may be already gone: failing one of the previous tasks
+        // may cancel the remaining tasks of its job (max fails)
+        let Some(task) = core.find_task_mut(task_id) else {
+            continue;
+        };
         if CrashLimit::NeverRestart == task.configuration.crash_limit {
             log::debug!("Task {task_id} with never restart flag crashed");
             let error_info = TaskFailInfo {
